@@ -21,6 +21,7 @@ EXPLANATION = (
     "(5) CanvasCache.store registers the widget as dependant of every dependency before recording the canvas and refuses to record when a dependency is uncached; "
     "CanvasCache.invalidate drops the widget's entry and recurses into every saved dependant."
     " Added after seed round 3: (1e) INV-LAYER - state switched inside a render closure and read by an inherited render() that is cached without the focus flag (Text.ignore_focus under Edit) changes only together with _invalidate(); (6) CanvasCache.cleanup drops a widget's _deps entry under exactly the conditions under which it drops its _widgets entry; (7) a size-keyed layout memo is not used in the cases in which the memoised computation consults a child (Columns with PACK columns)."
+    " Round 4 triage: (8) HIDDEN-DEP - a render() that can finish without rendering a child it consulted for the layout (Pile item with 0 rows, Columns column without width, trimmed-away Frame header/footer, Overlay over an empty bottom canvas) declares the dependency with set_depends() naming that child's source on the skipping path."
 )
 NOT_DECIDED = (
     "That cached and fresh renderings are equal for all widget trees and histories (needs the value semantics of rendering); that the cascade reaches the right widgets "
@@ -440,6 +441,7 @@ def run(ctx: Ctx):
         rule_layered_cache(ctx),
         rule_cleanup(ctx),
         rule_memo_children(ctx),
+        canv.run_hidden_dep(p, "C06.8", floor=6),
     ]
     return out
 
@@ -458,6 +460,11 @@ MUTANTS = [
     Mut("edit-cursor-coords-flag-without-invalidate", "urwid/widget/edit.py", "Edit.get_cursor_coords", "        if not self._shift_view_to_cursor:\n            self._shift_view_to_cursor = True\n            self._invalidate()\n", "        self._shift_view_to_cursor = True\n", "INV-LAYER|widget.edit.Edit.get_cursor_coords"),
     Mut("cleanup-drops-deps-early", "urwid/canvas.py", "CanvasCache.cleanup", "        if not sizes:\n            with contextlib.suppress(KeyError):\n                del cls._widgets[widget]\n                del cls._deps[widget]", "        cls._deps.pop(widget, None)\n        if not sizes:\n            with contextlib.suppress(KeyError):\n                del cls._widgets[widget]", "PAIR|canvas.CanvasCache.cleanup"),
     Mut("twin-cleanup-pop-form", "urwid/canvas.py", "CanvasCache.cleanup", "            with contextlib.suppress(KeyError):\n                del cls._widgets[widget]\n                del cls._deps[widget]", "            cls._widgets.pop(widget, None)\n            cls._deps.pop(widget, None)", twin=True),
+    Mut("pile-hidden-item-no-depends", "urwid/widget/pile.py", "Pile.render", "            out.set_depends([w for w, _ in self.contents])\n", "            pass\n", "HIDDEN-DEP|widget.pile.Pile.render"),
+    Mut("columns-hidden-column-no-depends", "urwid/widget/columns.py", "Columns.render", "            canvas.set_depends([w for w, _ in self.contents])\n", "            pass\n", "HIDDEN-DEP|widget.columns.Columns.render"),
+    Mut("frame-depends-body-only", "urwid/widget/frame.py", "Frame.render", "canvas.set_depends([w for w in (self.header, self.body, self.footer) if w is not None])", "canvas.set_depends([self.body])", "HIDDEN-DEP|widget.frame.Frame.render"),
+    Mut("overlay-empty-bottom-no-depends", "urwid/widget/overlay.py", "Overlay.render", "            canv.set_depends([self.top_w, self.bottom_w])\n", "", "HIDDEN-DEP|widget.overlay.Overlay.render"),
+    Mut("twin-pile-depends-list-form", "urwid/widget/pile.py", "Pile.render", "            out.set_depends([w for w, _ in self.contents])\n", "            out.set_depends([item[0] for item in self.contents])\n", twin=True),
     Mut("columns-memo-with-pack-columns", "urwid/widget/columns.py", "Columns.column_widths", "if maxcol == self._cache_maxcol and not any(t == WHSettings.PACK for w, (t, n, b) in self.contents):", "if maxcol == self._cache_maxcol:", "MEMO|widget.columns.Columns.column_widths"),
     Mut("twin-pad-copy-slice", "urwid/canvas.py", "CompositeCanvas.pad_trim_top_bottom", "self.shards = self.shards.copy()", "self.shards = self.shards[:]", twin=True),
 ]
